@@ -54,6 +54,8 @@ pub struct ArgD {
     pub taint: String,
     /// an unparsable wire value carrying the taint token
     pub bad: String,
+    /// further texts that look like the type but are outside its grammar
+    pub bad_alts: Vec<&'static str>,
 }
 
 #[derive(Clone)]
@@ -94,7 +96,19 @@ fn arg(i: usize, kind: Kind, declared: &'static str, ty: &'static str, safe: boo
         "boolean" | "enum" => t.clone(),
         _ => t.clone(),
     };
-    ArgD { kind, declared, safe, required, single, typed, valid, taint, bad }
+    let bad_alts: Vec<&'static str> = match ty {
+        "datetime" => vec!["2017-1-2T3:4:5Z", "2017-01-02T03:04:05+0100", "2017-01-02T03:04:05UTC", "2017-01-02", "2017-01-02T03:04:05", "1483326245", "2017-13-02T03:04:05Z"],
+        "integer" => vec!["+-1", "1.0", "1e3", "0x10", "2147483648", "1_000", "١"],
+        "double" => vec!["1,5", "1.5.0", "0x1p3", "1e", "--1"],
+        "boolean" => vec!["TRUE", "True", "1", "yes", "t"],
+        "uuid" => vec!["0123456789abcdeffedcba987654321", "01234567-89ab-cdef-fedc-ba987654321g", "01234567-89ab-cdef-fedc"],
+        "safelong" => vec!["9007199254740992", "-9007199254740992", "1.0", "9e15"],
+        "rid" => vec!["ri.a.b.c", "ri.A.b.c.d", "ri.a.b.c.", "rid.a.b.c.d"],
+        "enum" => vec!["green", "GREEN-1", "GRE EN"],
+        "token" => vec!["=abc", "a b", "a,b"],
+        _ => vec![],
+    };
+    ArgD { kind, declared, safe, required, single, typed, valid, taint, bad, bad_alts }
 }
 
 pub fn endpoints() -> Vec<EndpointD> {
